@@ -1,7 +1,7 @@
 /-
   Driver for C08: line protocol, see harness/props/c08.py.
 
-  run|n=<inputs>|bs=<-|k>|ub=<0|1>|var=<gen|fixed|xyz (3 bits: refillUpdates skipSuperseded guardNotInBackups)>|
+  run|n=<inputs>|bs=<-|k>|ub=<0|1>|var=<gen|fixed|wxyz (4 bits: refillUpdates skipSuperseded guardNotInBackups emptyFirstBatchOk)>|
       script=<ok:dur,ok:dur,...>|dflt=<ok:dur>|cap=<max steps>
       script entry k = outcome (1 ok / 0 error) and duration (virtual seconds) of the k-th submitted future
       -> outs=<o> ; <o> ; ...      the set of outcomes over all iteration orders of `finished` and `copy(pending)`
@@ -201,7 +201,7 @@ def parseVariant (s : String) : Variant :=
   else if s == "fixed" then Variant.fixed
   else
     let bits := s.toList.map (· == '1')
-    ⟨bits.getD 0 true, bits.getD 1 true, bits.getD 2 true⟩
+    ⟨bits.getD 0 true, bits.getD 1 true, bits.getD 2 true, bits.getD 3 true⟩
 
 def handleRun (parts : List String) : String :=
   let n := (parseNat? (field parts "n")).getD 0
